@@ -185,10 +185,25 @@ func c16Oracle(c *corrCtx, class string, hd []byte) {
 
 func corrC16(c *corrCtx) {
 	r := c.rng
+	nEmit := 0
 	emit := func(class string, hd []byte) {
 		data := append(append([]byte{}, hd...), 0, 0, 0, 0) // zero tags
-		emitIcc(c, class, data)
+		plain := emitIcc(c, class, data)
 		c16Oracle(c, class, hd)
+		// the same header through a buffered reader over a source that delivers in pieces: every field
+		// must come out the same (one case in three; sizes rotate)
+		nEmit++
+		if nEmit%3 == 0 {
+			sc := [][]int{{1}, {7}, {90}, {84, 3}, {100, 1}, {50}}[(nEmit/3)%6]
+			bs := []int{16, 64, 4096}[(nEmit/3)%3]
+			src := &schedReader{data: data, sched: sc, endErr: ioEOF(), eofWithData: nEmit%2 == 0}
+			got := iccOutReader(bufioSized(src, bs), data)
+			c.emit(class+"/chunked", "icc eof "+hexs(data), got)
+			if got != plain {
+				c.direct(fmt.Sprintf("C16/%s/chunked/sched=%s/buf=%d", class, schedStr(sc), bs), "header fields differ when the same bytes arrive in pieces",
+					map[string]interface{}{"sched": schedStr(sc), "bufsize": bs, "plain": plain, "got": got, "header": hexs(hd)})
+			}
+		}
 	}
 	base := func(fill byte) []byte {
 		h := bytes.Repeat([]byte{fill}, 128)
